@@ -730,6 +730,43 @@ func (in *Interp) strSlice(ss []string) Value {
 	return GSlice{arr: arr, len: len(ss), cap: len(ss)}
 }
 
+func bytesConcrete(v Value) bool {
+	b, ok := v.(BSlice)
+	if !ok {
+		return false
+	}
+	if b.obj == nil {
+		return true
+	}
+	_, ok = concStr(StrV{arr: b.obj.arr, off: b.off, len: b.len})
+	return ok
+}
+
+func registerAddrStringers(reg regFn) {
+	// textual form of an address whose bytes are symbolic: opaque (it only feeds logging and
+	// placeholders; formatting it digit by digit would fork on every digit count)
+	opaque := func(ipOf func(a []Value) Value) intrinsic {
+		return func(in *Interp, fr *frame, fn *ssa.Function, a []Value, site string) Value {
+			ip := ipOf(a)
+			if ip == nil || bytesConcrete(ip) {
+				return in.callFn(fr, fn, a, nil, site)
+			}
+			in.e.assumptions["String() of an address with symbolic bytes is an opaque constant string (used for logging/placeholders only)"] = true
+			return mkStr("<symbolic-address>")
+		}
+	}
+	reg("(net.IP).String", opaque(func(a []Value) Value { return a[0] }))
+	addrIP := func(a []Value) Value {
+		sl, ok := a[0].(*StructLoc)
+		if !ok {
+			return nil
+		}
+		return load(structField(sl, "IP"))
+	}
+	reg("(*net.TCPAddr).String", opaque(addrIP))
+	reg("(*net.UDPAddr).String", opaque(addrIP))
+}
+
 func registerConcreteFallbacks(reg regFn) {
 	// each entry: executed natively when every argument is concrete, otherwise
 	// the SSA body is used (if any) or the call is unsupported.
